@@ -303,7 +303,13 @@ def rule_nul(X, R, rule="R20-nul"):
                 st = [f for f in exprs(idx[0]["idx"], "Struct")]
                 rng = strip(idx[0]["idx"])
                 fl = {f["name"]: local_name(f["e"]) for f in rng.get("fields", [])} if rng.get("k") == "Struct" else {}
-                rng_ok = fl.get("start") == "len" and fl.get("end") == "new_len"
+                # start = the length before extend(buf), end = the length after it
+                ext = [i_ for i_, s_ in enumerate(stm) if any(x["m"] in ("extend", "extend_from_slice") for x in exprs(s_, "MethodCall"))]
+                def len_let(nm_):
+                    return [i_ for i_, s_ in enumerate(stm) if s_.get("k") == "SLet" and s_["pat"].get("name") == nm_ and
+                            strip(s_.get("init", {})).get("m") == "len"]
+                a_, b_ = len_let(fl.get("start")), len_let(fl.get("end"))
+                rng_ok = bool(ext and a_ and b_) and a_[0] < ext[0] < b_[0]
     R.check(rep, rule, fn, "every NUL byte of the appended range is replaced by the substitute byte", where=h["span"])
     R.check(rng_ok, rule, fn, "the replaced range is exactly the appended bytes [len..new_len]", where=h["span"])
     # terminator pushed last
@@ -427,7 +433,19 @@ def rule_delegate(X, R, rule="R20-delegate"):
             args = call_args(c)
             nm = local_name(args[1])
             val = [local_name(chain(x)[0]) for x in exprs(args[2], "Path")]
-            R.check(nm == "name" and "value" in val, rule, name, "passes its own name and value on", "(%s, %s)" % (nm, val), c["sp"])
+            # the name is the text built from this function's name pointer/length pair, the value derives from its last parameter
+            nparams = len(h.get("params", []))
+            nm_init = let_init(h["body"], nm) if nm else None
+            nm_ok = nm_init is not None and any(is_param(p_, h, 1) for p_ in exprs(nm_init, "Path")) and any(is_param(p_, h, 2) for p_ in exprs(nm_init, "Path"))
+            tail_params = {param_name(h, i_) for i_ in range(3, nparams)}
+
+            def from_value(n_, depth=0):
+                n_ = local_name(n_) if isinstance(n_, dict) else n_
+                if n_ in tail_params:
+                    return True
+                ini_ = let_init(h["body"], n_) if n_ and depth < 4 else None
+                return ini_ is not None and any(from_value(p_, depth + 1) for p_ in exprs(ini_, "Path") if local_name(p_))
+            R.check(nm_ok and any(from_value(v_) for v_ in val if v_), rule, name, "passes its own name and value on", "(%s, %s)" % (nm, val), c["sp"])
     # the list constructors use the matching built-in definition
     for name, ty in (("wirefilter_add_always_list_to_scheme", "AlwaysList"), ("wirefilter_add_never_list_to_scheme", "NeverList")):
         h = X.hir(name)
